@@ -17,6 +17,7 @@ Algebra of the Isomap pre-matrix over any field of characteristic zero:
 -/
 namespace TapkeeVerif.IsomapPre
 open TapkeeVerif
+set_option linter.unusedSectionVars false
 
 variable {K : Type} [Field K] [CharZero K] {n : Nat}
 
